@@ -300,6 +300,12 @@ class OpRunner(object):
             return d.available
         if k == 'locks':
             return _lock_states(d)
+        if k == 'coro_create':
+            self.files['pending_op'] = op['inner']      # sync API: there is nothing to create ahead of time
+            return None
+        if k == 'coro_await':
+            inner = self.files.pop('pending_op', None)
+            return None if inner is None else self._do(inner, rec)
         if k == 'ghost':
             # another AdbDevice object of the same process -- own transport, own device -- does some work now and is then left behind
             # with its streams open and packets parked. Nothing of that may be visible to this object.
@@ -400,8 +406,14 @@ class OpRunner(object):
             if os.path.exists(p):
                 os.unlink(p)
             rec['dest_path'] = p
+            lp = p
+            if op.get('dest') == 'pathlib':
+                import pathlib
+                lp = pathlib.Path(p)       # any path-like names the destination file, as for open()
+            elif op.get('dest') == 'bytes_path':
+                lp = os.fsencode(p)
             try:
-                d.pull(op['path'], p, progress_callback=cb, **self._kw(op, T[:2]))
+                d.pull(op['path'], lp, progress_callback=cb, **self._kw(op, T[:2]))
             finally:
                 rec['dest_exists'] = os.path.exists(p)
                 if rec['dest_exists']:
@@ -420,14 +432,18 @@ class OpRunner(object):
             old = os.getcwd()
             hh = load()['hidden_helpers']
             real_listdir = os.listdir
+            ad = load()['adb_device']
             try:
                 if 'cwd' in rec:
                     os.chdir(rec['cwd'])
                     order = rec.get('listdir_order')
                     if order:
                         hh.os = _OsShim(order, src)
+                ad.open = _open_shim(self.run.tape)      # the library's view of open(): raw opens read short, as raw files may
                 d.push(src, op['path'], progress_callback=cb, **kw)
             finally:
+                if 'open' in vars(ad):
+                    del ad.open
                 hh.os = os
                 os.chdir(old)
                 del real_listdir
@@ -527,6 +543,30 @@ class OpRunner(object):
                 for nop in nested:
                     rec['nested'].append(await self.ado(nop))
             return out
+        if k == 'coro_create':
+            # the coroutine object of an operation is created now and awaited later (create_task / gather do the same)
+            inner = op['inner']
+            ik = inner['op']
+            if ik in ('shell', 'exec_out'):
+                co = getattr(d, ik)(inner['cmd'], decode=inner.get('decode', True), **self._kw(inner, T))
+            elif ik == 'root':
+                co = d.root(**self._kw(inner, T))
+            elif ik == 'reboot':
+                co = d.reboot(**self._kw(inner, T))
+            elif ik == 'stat':
+                co = d.stat(inner['path'], **self._kw(inner, T[:2]))
+            else:
+                co = d.list(inner['path'], **self._kw(inner, T[:2]))
+            self.files['pending_coro'] = co
+            return None
+        if k == 'coro_await':
+            co = self.files.pop('pending_coro', None)
+            return None if co is None else await co
+        if k == '_drop_pending_coro':
+            co = self.files.pop('pending_coro', None)
+            if co is not None:
+                co.close()      # never awaited (the scenario ended first): close it quietly
+            return None
         if k == 'ss_create':
             self.files['ss_gen'] = d.streaming_shell(op['cmd'], decode=op.get('decode', True), **self._kw(op, T[:2]))
             return None
@@ -583,7 +623,13 @@ class OpRunner(object):
                 os.unlink(p)
             rec['dest_path'] = p
             try:
-                await d.pull(op['path'], p, progress_callback=cb, **self._kw(op, T[:2]))
+                lp = p
+                if op.get('dest') == 'pathlib':
+                    import pathlib
+                    lp = pathlib.Path(p)
+                elif op.get('dest') == 'bytes_path':
+                    lp = os.fsencode(p)
+                await d.pull(op['path'], lp, progress_callback=cb, **self._kw(op, T[:2]))
             finally:
                 rec['dest_exists'] = os.path.exists(p)
                 if rec['dest_exists']:
@@ -657,6 +703,43 @@ def _more_possible(run):
     return bool(getattr(d, 'q', None)) or run.link.cur is not None
 
 
+class _ShortRaw(object):
+    """A raw (unbuffered) binary file as RawIOBase documents it: read(n) may return fewer than n bytes before end-of-file
+    (pipes, ttys, procfs and FUSE files do). Only what is opened with buffering=0 behaves like this; buffered opens are untouched."""
+
+    def __init__(self, f, tape):
+        self._f = f
+        self._tape = tape
+
+    def read(self, n=-1):
+        if n is None or n < 0 or n <= 1:
+            return self._f.read(n)
+        k = self._tape.draw('rawread', 4)
+        m = n if k == 0 else max(1, (n * k) // 4 - 1)
+        return self._f.read(m)
+
+    def __getattr__(self, name):
+        return getattr(self._f, name)
+
+    def __enter__(self):
+        return self
+
+    def __exit__(self, *a):
+        self._f.close()
+        return False
+
+
+def _open_shim(tape):
+    import builtins
+
+    def _open(path, mode='r', buffering=-1, *a, **kw):
+        f = builtins.open(path, mode, buffering, *a, **kw)
+        if buffering == 0 and 'b' in mode and 'r' in mode:
+            return _ShortRaw(f, tape)
+        return f
+    return _open
+
+
 class _OsShim(object):
     """`os` as seen by hidden_helpers: listdir order of the pushed directory comes from the scenario."""
     def __init__(self, order, directory):
@@ -722,6 +805,7 @@ def _replace_real_locks(obj, sched, seen=None):
 
 def build(scn, tape):
     run = Run()
+    run.tape = tape
     run.clock = SimClock()
     run.log = EventLog()
     dspec = scn['device']
@@ -1069,6 +1153,9 @@ def _execute_async(scn, tape, L):
             run.abort = 'step-cap'
             run.abort_msg = str(e)
         run.locks = _lock_states(obj)
+        co = runner.files.pop('pending_coro', None)
+        if co is not None:
+            co.close()          # a coroutine the scenario created and never awaited: closed quietly
     finally:
         _unpatch(saved)
         L['hidden_helpers'].os = os
